@@ -82,7 +82,12 @@ fn check(case: &SemCase, net: &Net, fs: &[F]) -> Verdict {
         return Verdict::Discard("outside-C02-domain");
     }
     let sym = symbolic_context(net, &case.context);
-    let colours = sample_colours(net, 48);
+    // the explicit evaluation costs about (formula size) x states^(nesting depth) per colour; the
+    // number of colours compared is reduced (never below 3) when seven large, deeply nested formulae
+    // over 64 states would otherwise take minutes
+    let cost: f64 = fs.iter().map(|f| f.size() as f64 * (net.num_states() as f64).powi(f.quant_depth() as i32)).sum();
+    let affordable = (3.0e7 / cost.max(1.0)).floor() as usize;
+    let colours = sample_colours(net, affordable.clamp(3, 48));
     let wants = expected_many(net, fs, &case.context, &colours);
     let mut all_results = vec![];
     for (i, f) in fs.iter().enumerate() {
@@ -150,7 +155,7 @@ impl Property for C02 {
         tier.pick(6_000, 400_000)
     }
     fn strategy(&self, tier: Tier) -> BoxedStrategy<crate::scale::WithMid<RawSem>> {
-        crate::scale::with_mid(raw_sem(tier.pick(3, 4), 2..=2, 5, tier.pick(14, 20)), 39, 1, tier.pick(600, 2500))
+        crate::scale::with_mid(raw_sem(tier.pick(3, 4), 2..=2, 5, tier.pick(14, 20)), tier.pick(39, 99), 1, tier.pick(600, 2500))
     }
     fn check_raw(&self, raw: &crate::scale::WithMid<RawSem>) -> Verdict {
         let raw = match raw {
@@ -161,7 +166,8 @@ impl Property for C02 {
             let main = gen::resolve_f(&raws[0], env);
             // a body open in `x` (at most two further quantifier levels inside)
             let mut inner_env_cfg = env.cfg;
-            inner_env_cfg.max_quant_depth = 3;
+            // (bounded by the nesting the explicit evaluator can afford on this network: states^depth <= 4096)
+            inner_env_cfg.max_quant_depth = env.cfg.max_quant_depth.min(3);
             let inner_env = gen::FEnv {
                 props: env.props,
                 labels: env.labels,
